@@ -67,3 +67,20 @@ Theorem C04_unique_general : forall (m : Mesh ROps) (D u : fvar ROps) (kap x y f
   forall c, In c cells -> x c = y c.
 Proof. exact unique_general. Qed.
 Print Assumptions C04_unique_general.
+
+(* ---- and directly for solutions of the assembled system (Theory/ClosureThy.v): the closure hypotheses are DERIVED from the boundary
+   rows of is_solution (cell numbering round trip, classification of the neighbours of interior cells, the Robin row algebra), so the
+   hypotheses are about the data only: mesh and coefficient signs, discretely divergence-free u, non-periodic boundary conditions whose
+   ghost coefficient b/2 +- a/h is non-zero and has the sign of b (Dirichlet, Neumann, Robin with a, b of one sign) ---- *)
+From PFV Require Import ClosureThy.
+Theorem C04_solution_is_unique : forall (m : Mesh ROps) (bc : BCs ROps) (D u : fvar ROps),
+  interior_cells ROps m <> nil ->
+  (forall c a, In c (interior_cells ROps m) -> In a (active_axes ROps m) -> (1 <= cidx a c <= mN ROps m a)%nat /\ signs_ok m D c a) ->
+  (forall c, In c (interior_cells ROps m) -> rsuml (fun a => divrow ROps m u a c) (active_axes ROps m) = 0%R) ->
+  bc_sign_ok m bc ->
+  forall (alpha beta s old x y : cvar ROps) (dt : R),
+  (0 < dt)%R -> (forall c, In c (interior_cells ROps m) -> (0 < alpha c)%R /\ (0 <= beta c)%R) ->
+  is_solution ROps m bc (tlist D u alpha beta s old dt) x -> is_solution ROps m bc (tlist D u alpha beta s old dt) y ->
+  forall c, In c (interior_cells ROps m) -> x c = y c.
+Proof. exact solution_is_unique. Qed.
+Print Assumptions C04_solution_is_unique.
